@@ -224,6 +224,47 @@ Reach(s, todo, acc) ==
   IN Reach(s, (todo \ {n}) \cup new, acc \cup {n})
 Retained(s) == Reach(s, Roots(s), {})
 Released(s) == (1..s.n) \ Retained(s)
+---------------------------------------------------------------------------
+(* The spec action for one API action given as a record (recorded traces, scripted programs) *)
+Field(e, f, dflt) == IF f \in DOMAIN e THEN e[f] ELSE dflt
+RECURSIVE RunSteps(_)
+RunSteps(s) == IF Ok(s) /\ (s.chain # 0 \/ ~HeapEmpty(s)) THEN RunSteps(StabiliseStep(s)) ELSE s
+RECURSIVE RunHandlerSteps(_)
+RunHandlerSteps(s) == IF Ok(s) /\ s.runq # <<>> THEN RunHandlerSteps(StabiliseHandlersStep(s)) ELSE s
+\* state just before Finish (status = "handlers"), on which the round predicates are evaluated
+StabiliseToHandlers(s) == RunHandlerSteps(StabiliseEndA(RunSteps(StabiliseBegin(s))))
+
+
+ApplyRaw(s, e) ==
+  CASE e.a = "var"      -> ApiVar(s, e.v)
+    [] e.a = "const"    -> ApiConst(s, e.v)
+    [] e.a = "map"      -> ApiMap(s, e.f, e["in"], Field(e, "eff", <<>>))
+    [] e.a = "map2"     -> ApiMap2(s, e.f, e["in"][1], e["in"][2])
+    [] e.a = "fold"     -> ApiFold(s, e.f, e.ins, e.init)
+    [] e.a = "mapref"   -> ApiMapRef(s, e.f, e["in"])
+    [] e.a = "mwo"      -> ApiMwo(s, e.f, e.mode, e["in"])
+    [] e.a = "zip"      -> LET s1 == ApiZip(s, e["in"][1], e["in"][2]) IN ApiMap(s1, "id", s1.n, <<>>)
+    [] e.a = "dependon" -> ApiDependOn(s, e["in"][1], e["in"][2])
+    [] e.a = "bind"     -> ApiBind(s, e["in"], e.recipe)
+    [] e.a = "memo_new" -> ApiMemoNew(s, e.f, e.over)
+    [] e.a = "xjoin"    -> ApiXJoin(s, e["in"])
+    [] e.a = "xsum"     -> ApiXSum(s, e.sel, e.ins)
+    [] e.a = "cutoff"   -> ApiSetCutoff(s, e.n, [c |-> e.c])
+    [] e.a = "write"    -> VarWrite(s, e.n, e.op, e.x)
+    [] e.a = "observe"  -> ApiObserve(s, e.n)
+    [] e.a = "observe_leaked" -> ApiObserve(s, s.leaked[e.i])
+    [] e.a = "obs_clone" -> ApiObsClone(s, e.o)
+    [] e.a = "obs_drop" -> ApiObsDrop(s, e.o)
+    [] e.a = "disallow" -> DisallowObs(s, e.o)
+    [] e.a = "subscribe" -> Subscribe(s, e.o, Field(e, "eff", <<>>))
+    [] e.a = "unsubscribe" -> Unsubscribe(s, e.o, Field(e, "to", e.o), e.t)
+    [] e.a = "state_unsubscribe" -> StateUnsubscribe(s, Field(e, "to", e.o), e.t)
+    [] e.a = "set_max_height" -> ApiSetMaxHeight(s, e.h)
+    [] e.a = "stabilise" -> StabiliseToHandlers(s)
+    [] e.a = "drop"     -> ApiDropHandle(s, e.n)
+    [] e.a = "drop_var" -> ApiDropVar(s, e.n)
+    [] OTHER -> s
+
 \* after a public call returns, dangling weak references are exactly the released nodes
 Settle(s) == IF Ok(s) THEN [s EXCEPT !.rel = @ \cup Released(s)] ELSE s
 HoldFor(a, r) ==
